@@ -39,7 +39,7 @@ HAZARD = [
     "GeneratorExp.elt", "ListComp.iter", "ListComp.if", "Yield.value", "Await.value", "Dict.value",
     "Dict.starstar", "Tuple.elt1", "Set.elt1", "SetComp.elt", "ListComp.elt", "DictComp.value", "GeneratorExp.iter", "Slice.upper",
 ]
-LEAF_REPS = ["Name", "Int", "Str", "EmptyDict", "Set1", "FStrField", "Yield0", "Complex"]
+LEAF_REPS = ["Name", "Name_", "Int", "Str", "EmptyDict", "Set1", "FStrField", "Yield0", "Complex"]
 
 _S = None
 
